@@ -396,6 +396,35 @@ def numbers_for(mode):
     return [n for n in NUMBERS if not (mode == "Decimal" and n == "nan")]
 
 
+def stale_attrs(ureg, r):
+    """names of derived read-only attributes of a quantity that disagree with its unit container"""
+    if not hasattr(r, "_units"):
+        return []
+    try:
+        want = ureg.get_dimensionality(r._units)
+        fresh = ureg.Quantity(1, r._units)
+        bad = []
+        if r.dimensionality != want:
+            bad.append("dimensionality")
+        if r.dimensionless != fresh.dimensionless:
+            bad.append("dimensionless")
+        if r.unitless != fresh.unitless:
+            bad.append("unitless")
+        if r.check(want) is not True:
+            bad.append("check")
+        if r.is_compatible_with(fresh) is not True:
+            bad.append("is_compatible_with")
+        return bad
+    except ValueError:
+        return []  # a NaN exponent (q **= nan) has no dimension vector to compare with
+
+
+def warm(q):
+    """read every memoised derived attribute once, as a program that inspects a quantity before updating it does"""
+    q.dimensionality, q.dimensionless, q.unitless  # noqa: B018
+    return q
+
+
 def run_d1(acc, mode, aname):
     import numpy as np
 
@@ -422,7 +451,11 @@ def run_d1(acc, mode, aname):
                     if form == "plain":
                         o = run_op(lambda: BIN[opname](a, b))
                     else:
+                        warm(a)
                         o = run_op(lambda: IOPS[opname](a, b))
+                        bad = stale_attrs(ureg, o[1]) if o[0] == "ok" else []
+                        if bad:
+                            acc.violation(["inplace-consistency", opname, form, "derived-attribute-stale-after-in-place-operation", mode], {"mode": mode, "tree": [aname, opname, bname], "spellings": [list(sa), list(sb)], "attributes": bad}, "attributes that follow the unit container", bad)
                     acc.ev()
                     if (sa, sb) != (LEAVES[aname][0], LEAVES[bname][0]):
                         acc.nt((mode, opname, form, aname, bname, sa, sb))
@@ -453,7 +486,11 @@ def run_d1(acc, mode, aname):
                     elif form == "reflected":
                         o = run_op(lambda: BIN[opname](n, a))
                     else:
+                        warm(a)
                         o = run_op(lambda: IOPS[opname](a, n))
+                        bad = stale_attrs(ureg, o[1]) if o[0] == "ok" else []
+                        if bad:
+                            acc.violation(["inplace-consistency", opname, form, "derived-attribute-stale-after-in-place-operation", mode], {"mode": mode, "tree": [aname, opname, ns], "spellings": [list(sa)], "attributes": bad}, "attributes that follow the unit container", bad)
                     acc.ev()
                     if sa != LEAVES[aname][0]:
                         acc.nt((mode, opname, form, aname, ns, sa))
